@@ -138,7 +138,12 @@ def run(ctx, chk):
     pc = sh.calls(PERFORM)
     if pc:
         a = pc[0].data["args"]
-        ok = len(a) == 3 and a[1] == ("param", sh.fi.params[1]) and not pc[0].data["kwargs"]
+        st_ok = len(a) == 3 and (a[1] == ("param", sh.fi.params[1]) or
+                                 sh.show(a[1]) in (f"new State#{a[1][2]}",) and a[1][0] == "new"
+                                 and sh.show(sh.ip.heap[a[1][2]]["fields"].get(
+                                     sh.cn.tensor_attr, ("unknown", "?"))) ==
+                                 f"copy({sh.fi.params[1]})")
+        ok = len(a) == 3 and st_ok and not pc[0].data["kwargs"]
         chk.ob("C13.inputs", "generative_step passes exactly (state, action) to the transition "
                "function", ok, f"{[sh.show(x)[:80] for x in a]}", sh.fi.module.path)
     chk.assume("numpy: np.copy and np.zeros return fresh arrays; ndarray[i] on a 2-D array is a "
